@@ -5,7 +5,9 @@ CONSTANTS MaxLen, ValIdx
 VARIABLES args, call, call2, args2, spell, where, done
 (* how the library is named: an absolute path, or a relative name that contains a backslash (an ordinary
    file-name character on this platform; the name must reach the loader unchanged) *)
-Spells == {"plain", "backslash"}
+\* searchpath: the library is named by its bare file name and found by the dynamic loader on its search path (LD_LIBRARY_PATH),
+\* not relative to the working directory
+Spells == {"plain", "backslash", "searchpath"}
 (* where the first foreign call runs: in the module function, inside a bytecode function called from it, or as the last
    instruction before `ret` of such a function (its result / error then crosses a bytecode call boundary); what the program
    prints does not depend on it *)
